@@ -199,6 +199,7 @@ A_C01 == C01_SettlesError /\ C01_WaitersHeld /\ C01_LaneReverted /\ C01_HealthyC
 A_C02 == ~a_c02bad
 A_C03 == ~a_aggbad /\ ~a_rdybad /\ ~a_stuck
 A_C04 == ~a_redobad /\ ~a_rerunbad /\ ~a_lostbad
+A_C07 == C07
 \* spec-side monitors stay clean too (precise mode: the spec's own bookkeeping over the real run)
 SpecMon == ~c02bad /\ ~redoBad /\ ~panicked
 =============================================================================
